@@ -367,6 +367,28 @@ func runC03(p *core.Prog, r *core.Result) {
 	// temp extends work (same tree)
 	if Load := need(p, r, "R3.1", "", "", "Load"); Load != nil {
 		var workArgs, tempArgs []string
+		// path components of a value: constants, the root parameter, filepath.Join of components (through locals)
+		var partsOf func(v ssa.Value, depth int) []string
+		partsOf = func(v ssa.Value, depth int) []string {
+			if s, ok := core.ConstString(v); ok {
+				return []string{s}
+			}
+			if v == ssa.Value(Load.Params[0]) {
+				return []string{"<root>"}
+			}
+			if c, ok := v.(*ssa.Call); ok && core.IsCallTo(c, "path/filepath", "Join") && depth < 4 {
+				var parts []string
+				if sl, ok := c.Call.Args[0].(*ssa.Slice); ok {
+					if elems, ok := tupleElemsAny(sl); ok {
+						for _, e := range elems {
+							parts = append(parts, partsOf(e, depth+1)...)
+						}
+						return parts
+					}
+				}
+			}
+			return []string{"?"}
+		}
 		core.Instrs(Load, func(in ssa.Instruction) {
 			st, ok := in.(*ssa.Store)
 			if !ok {
@@ -376,28 +398,10 @@ func runC03(p *core.Prog, r *core.Result) {
 				if !core.IsField(st.Addr, pkgRoot, "Project", fld) {
 					continue
 				}
-				c, ok := st.Val.(*ssa.Call)
-				if !ok || !core.IsCallTo(c, "path/filepath", "Join") {
-					continue
-				}
-				var parts []string
-				if sl, ok := c.Call.Args[0].(*ssa.Slice); ok {
-					if elems, ok := tupleElemsAny(sl); ok {
-						for _, e := range elems {
-							if s, ok := core.ConstString(e); ok {
-								parts = append(parts, s)
-							} else if e == ssa.Value(Load.Params[0]) {
-								parts = append(parts, "<root>")
-							} else {
-								parts = append(parts, "?")
-							}
-						}
-					}
-				}
 				if fld == "work" {
-					workArgs = parts
+					workArgs = partsOf(st.Val, 0)
 				} else {
-					tempArgs = parts
+					tempArgs = partsOf(st.Val, 0)
 				}
 			}
 		})
